@@ -40,10 +40,20 @@ def keyspace(kind, n):
     ks = []
     for i in range(n):
         ks.append([i, f"k{i}", ("t", i)][i % 3])
+    if n >= 4:
+        ks[3] = None        # None, '' and () are hashable keys like any other
+    if n >= 6:
+        ks[5] = ""
+    if n >= 8:
+        ks[7] = ()
     return ks
 
 
 def gen_case(rng, tier, index):
+    if index % 150 == 10:
+        return {"special": "nan_key", "ops": []}
+    if index % 600 == 11:
+        return {"special": "many_ties", "n": rng.choice([4100, 4500, 9000]), "ops": []}
     cap = rng.choice([1, 1, 2, 2, 3, 3, 4, 5, 6, 7, 8, 64]) if index % 7 else rng.choice([1, 2, 3])
     extra = rng.randint(1, 4)
     nkeys = cap + extra
@@ -77,6 +87,8 @@ def shrinkable(case):
 
 
 def describe(case):
+    if case.get("special"):
+        return dict(case)
     return {"cap": case["cap"], "nkeys": case["nkeys"], "keys": case["keys"],
             "ops": [f"{o[0]}({o[1]})" for o in case["ops"]][:40]}
 
@@ -181,8 +193,70 @@ def observe(c, m, desc, res, adopt=None, touched=None):
     internal_walk(c, m, res)
 
 
+
+def run_special(case, res, cls, lfu):
+    """Two fixed scenarios outside the random histories."""
+    what = case["special"]
+    if what == "nan_key":
+        # a key that is not equal to itself (NaN) behaves in a dict by identity; the cache is a mapping like dict
+        nan = float("nan")
+        c, d = cls(3), {}
+        steps = [("set", nan, "n1"), ("set", 1, "one"), ("get", nan), ("in", nan), ("set", nan, "n2"), ("get", nan), ("set", 2, "two"),
+                 ("items",), ("del", nan), ("in", nan), ("get", 1)]
+        for st in steps:
+            if st[0] == "set":
+                g, w = outcome(lambda: c.__setitem__(st[1], st[2])), outcome(lambda: d.__setitem__(st[1], st[2]))
+            elif st[0] == "get":
+                g, w = outcome(lambda: c[st[1]]), outcome(lambda: d[st[1]])
+            elif st[0] == "in":
+                g, w = outcome(lambda: st[1] in c), outcome(lambda: st[1] in d)
+            elif st[0] == "del":
+                g, w = outcome(lambda: c.__delitem__(st[1])), outcome(lambda: d.__delitem__(st[1]))
+            else:
+                g, w = outcome(lambda: sorted(map(repr, c.items()))), outcome(lambda: sorted(map(repr, d.items())))
+            res.evaluations += 1
+            if g != w:
+                raise Violation("lookup-value", f"NaN used as a key (one object): step {st[:2]} -> {g}, a dict gives {w}", {})
+        res.count("nan_key_scenarios")
+        return
+    # many_ties: thousands of entries with the same use count, then a use of the oldest one
+    n = case["n"]
+    c = cls(n)
+    for i in range(n):
+        c[i] = i
+    with instr.budget(40 * n + 20000):
+        try:
+            v = c[0]
+        except instr.StepBudgetExceeded:
+            raise Violation("operation-does-not-end", f"lookup in a cache of {n} entries with equal use counts exceeded its statement budget", {})
+    order = list(c)
+    res.evaluations += 3
+    if v != 0 or len(order) != n or set(order) != set(range(n)):
+        raise Violation("content-mismatch", f"cache of {n} entries after one lookup: value {v}, {len(order)} keys listed", {})
+    if lfu:
+        if order[-1] != 0:
+            raise Violation("iteration-order", f"{n} keys used once and key 0 used twice: key 0 is listed at position {order.index(0)} of "
+                            f"{n} (iteration must be in non-decreasing use count)", {})
+        c[n] = n                # evicts a key used once
+        gone = set(range(n + 1)) - set(c)
+        if len(gone) != 1 or 0 in gone or n in gone:
+            raise Violation("wrong-victim", f"storing a new key into the full cache of {n} removed {sorted(gone)[:5]} (key 0 was used twice, "
+                            "all others once)", {})
+    else:
+        if order[0] != 0:
+            raise Violation("order-mismatch", f"{n} keys stored, key 0 looked up: most recently used first gives 0 first, got {order[:3]}", {})
+        c[n] = n
+        gone = set(range(n + 1)) - set(c)
+        if gone != {1}:
+            raise Violation("wrong-victim", f"storing a new key into the full cache of {n} removed {sorted(gone)[:5]}, least recently used is 1", {})
+    res.count("many_entries_scenarios")
+    res.seen(("special", what, n))
+
+
 def run_case(case, res):
     from windpyutils.structures.caches import LRUCache
+    if case.get("special"):
+        return run_special(case, res, LRUCache, False)
     cap = case["cap"]
     keys = keyspace(case["keys"], case["nkeys"])
     # a second, independent cache lives next to the one under test (state shared between instances would show)
